@@ -542,7 +542,7 @@ def load_database(dbpath, rootdir):
 
         # Skip files that don't exist.
         # (e.g., because they're generated by running make)
-        if not os.path.exists(path):
+        if not os.path.isfile(path):
             log.warning(f"Ignoring non-existent file: {path}")
             continue
 
